@@ -1,9 +1,69 @@
 import MidnightZK.Model.Common
 import MidnightZK.Model.C02.RowSat
 import MidnightZK.Model.C02.Parse
-/-! Line-protocol handler of property C02: `sat <cs fields> <table fields>` → verdicts. -/
+import MidnightZK.Model.C02.Identities
+import MidnightZK.Model.C02.Label
+import MidnightZK.Model.C01.Parse
+import MidnightZK.Gen.C02Consts
+/-! Line-protocol handler of property C02:
+* `sat <cs fields> <table fields>` → verdicts of the row-level semantics;
+* `ids <shape fields> <cs fields> nc=… inst=… tr=…` → every identity value the verifier folds,
+  `y`, `x^n`, `expected_h_eval`, recomputed by `Model/C02/Identities.lean` from the recorded
+  transcript scalars labelled with `Model/C01/Schedule.lean: verifierSchedule`;
+* `domain k=…` → `omega` of the evaluation domain and `F::DELTA` from the generated constants. -/
 namespace MidnightZK.C02.Driver
 open MidnightZK MidnightZK.C02 MidnightZK.C02.Parse
+
+/-- The field of the proof system: constants regenerated from `curves/src/bls12_381/fq.rs`. -/
+def fld : Ids.Fld :=
+  { p := Consts.modulus, delta := Consts.delta, root := Consts.rootOfUnity, s := Consts.twoAdicity }
+
+def splitBy (sizes : List Nat) (l : List α) : List (List α) :=
+  match sizes with
+  | [] => []
+  | k :: ks => l.take k :: splitBy ks (l.drop k)
+
+def parseHexList (s : String) : Option (List Nat) :=
+  if s = "-" then some [] else (s.splitOn ",").mapM parseHex?
+
+/-- `inst=`: proofs separated by `|`, plain columns by `/`, values by `,`; `_` = no plain column. -/
+def parseInst (s : String) : Option (List (List (List Nat))) :=
+  (s.splitOn "|").mapM fun pr =>
+    if pr = "_" then some [] else (pr.splitOn "/").mapM parseHexList
+
+/-- `tr=`: `R<hex>` (scalar read from the proof) or `S<hex>` (squeezed challenge). -/
+def parseStream (s : String) : Option (List (Bool × Nat)) :=
+  if s = "-" then some [] else
+  (s.splitOn ",").mapM fun t =>
+    match t.toList with
+    | 'R' :: h => (parseHex? (String.ofList h)).map fun v => (false, v)
+    | 'S' :: h => (parseHex? (String.ofList h)).map fun v => (true, v)
+    | _ => none
+
+def answerIds (ws : List String) : Option String := do
+  let p ← parseHex? (← kv ws "p")
+  if p ≠ fld.p then none
+  let sh ← C01.Parse.parseShape? ws
+  let nc ← parseNat? (← kv ws "nc")
+  let gp ← parseNatList? (← kv ws "gp")
+  let gatesFlat ← parseExprList (← kv ws "gates") ";"
+  if gp.foldl (· + ·) 0 ≠ gatesFlat.length then none
+  let lookups ← parsePairs (← kv ws "lookups")
+  let trash ← (do
+    let l ← parsePairs (← kv ws "trash")
+    l.mapM fun (a, b) => match a with | [q] => some (q, b) | _ => none)
+  let pcols ← parsePermCols (← kv ws "pcols")
+  if sh.numLookups ≠ lookups.length ∨ sh.numTrash ≠ trash.length ∨ sh.permCols ≠ pcols.length then none
+  let plain ← parseInst (← kv ws "inst")
+  let stream ← parseStream (← kv ws "tr")
+  let cs : Ids.VCS :=
+    { gates := splitBy gp gatesFlat, lookups := lookups, trash := trash, permCols := pcols,
+      adviceQueries := sh.adviceQueries, fixedQueries := sh.fixedQueries,
+      instanceQueries := sh.instanceQueries, degree := sh.degree, blinding := sh.blinding, k := sh.k }
+  match Label.run fld cs sh.advicePhase sh.challengePhase nc plain stream with
+  | none => pure "schedule-mismatch"
+  | some (ch, r) =>
+    pure s!"n={r.ids.length} vals={fmtHexList (r.ids.map (·.2))} y={toHex ch.y} xn={toHex r.xn} h={toHex r.h}"
 
 def answer (line : String) : String :=
   match words line with
@@ -11,6 +71,11 @@ def answer (line : String) : String :=
     match parseCase rest with
     | some (cs, t) =>
       s!"rowSat={fmtBool (rowSat cs t)} mock={fmtBool (mockOK cs t)} gt={fmtBool (gatesOK cs t && trashOK cs t)} lookups={fmtBool (lookupsOKMock cs t)} copies={fmtBool (copiesOK cs t)}"
+    | none => "bad-op"
+  | "ids" :: rest => (answerIds rest).getD "bad-op"
+  | ["domain", kk] =>
+    match (if kk.startsWith "k=" then parseNat? (kk.drop 2).toString else none) with
+    | some k => s!"omega={toHex (Ids.omegaOf fld k)} delta={toHex (fld.delta % fld.p)}"
     | none => "bad-op"
   | _ => "bad-op"
 
